@@ -917,7 +917,11 @@ func (r *envelopingReader) prepareNext() error {
 			limit := int64(r.rw.op.methodConf.maxMsgBufferBytes)
 			length := r.rw.op.contentLen
 			if length > limit {
-				return bufferLimitError(limit)
+				// Report it like every other violation of the limit, so that the RPC fails
+				// even if the handler ignores the error of its Read.
+				err := bufferLimitError(limit)
+				r.rw.reportError(err)
+				return err
 			}
 			r.current = &hardLimitReader{r: r.r, rw: r.rw, limit: r.rw.op.contentLen, makeError: contentLengthError}
 			env.length = uint32(length) //nolint:gosec // Length is validated above.
